@@ -515,3 +515,83 @@ func init() {
 		gens = append(gens, g)
 	})
 }
+
+// Publication order of the extractor's counters (C05, C01): the pipeline model increments
+// readLines / matchedLines / ignoredLines while the line is processed, i.e. BEFORE the worker sends
+// the batch of matches on readChan. Extracted here: which functions contain atomic.Add* calls on
+// those counters, and whether asyncWorker calls processLineSync before its send on readChan and
+// performs no counter update itself.
+func init() {
+	generators = append(generators, func() {
+		const rel = "pkg/extractor/extractor.go"
+		f := parse(rel)
+		if f == nil {
+			return
+		}
+		counters := map[string]bool{"readLines": true, "matchedLines": true, "ignoredLines": true}
+		addedIn := map[string]bool{}
+		var workerSend, workerCall token.Pos
+		workerAdds := false
+		for _, d := range f.Decls {
+			fd, ok := d.(*ast.FuncDecl)
+			if !ok || fd.Body == nil {
+				continue
+			}
+			ast.Inspect(fd.Body, func(n ast.Node) bool {
+				switch x := n.(type) {
+				case *ast.CallExpr:
+					if sel, ok := x.Fun.(*ast.SelectorExpr); ok {
+						if id, ok := sel.X.(*ast.Ident); ok && id.Name == "atomic" && !strings.HasPrefix(sel.Sel.Name, "Load") {
+							for _, a := range x.Args {
+								if u, ok := a.(*ast.UnaryExpr); ok {
+									if s2, ok := u.X.(*ast.SelectorExpr); ok && counters[s2.Sel.Name] {
+										addedIn[fd.Name.Name] = true
+										if fd.Name.Name == "asyncWorker" {
+											workerAdds = true
+										}
+									}
+								}
+							}
+						}
+						if fd.Name.Name == "asyncWorker" && sel.Sel.Name == "processLineSync" && workerCall == token.NoPos {
+							workerCall = x.Pos()
+						}
+					}
+				case *ast.SendStmt:
+					if fd.Name.Name == "asyncWorker" {
+						if s2, ok := x.Chan.(*ast.SelectorExpr); ok && s2.Sel.Name == "readChan" {
+							workerSend = x.Pos()
+						}
+					}
+				case *ast.IncDecStmt:
+					if s2, ok := x.X.(*ast.SelectorExpr); ok && counters[s2.Sel.Name] {
+						addedIn[fd.Name.Name+"(non-atomic)"] = true
+					}
+				case *ast.AssignStmt:
+					for _, l := range x.Lhs {
+						if s2, ok := l.(*ast.SelectorExpr); ok && counters[s2.Sel.Name] {
+							addedIn[fd.Name.Name+"(non-atomic)"] = true
+						}
+					}
+				}
+				return true
+			})
+		}
+		var fns []string
+		for k := range addedIn {
+			fns = append(fns, k)
+		}
+		sort.Strings(fns)
+		if workerSend == token.NoPos || workerCall == token.NoPos {
+			fail("%s: asyncWorker no longer has the shape `processLineSync(...) ... s.readChan <- batch`", rel)
+		}
+		g := newGen("GenOrder", "Where the extractor's counters are updated relative to the send on readChan.")
+		q := make([]string, len(fns))
+		for i, x := range fns {
+			q[i] = fmt.Sprintf("%q%%string", x)
+		}
+		g.def("counter_update_functions", "list string", "["+strings.Join(q, "; ")+"]", rel+": functions that update readLines / matchedLines / ignoredLines")
+		g.def("worker_processes_before_send", "bool", fmt.Sprint(workerCall < workerSend && !workerAdds), rel+": asyncWorker calls processLineSync before `s.readChan <- matchBatch` and updates no counter itself")
+		gens = append(gens, g)
+	})
+}
